@@ -127,6 +127,32 @@ static int one(int strict, int deliv)
 			MC_COUNT("needed_final_nul", 1);
 		}
 	}
+	/* flag combinations that do not concern a complete text: JSON_TOKENER_ALLOW_TRAILING_CHARS added to the
+	 * mode must leave status and value of a text without trailing characters as they are */
+	if (deliv == 0)
+	{
+		char *buf = mc_guard_buf(TL + 1);
+		memcpy(buf, T, TL);
+		buf[TL] = 0;
+		struct json_tokener *t4 = json_tokener_new();
+		json_tokener_set_flags(t4, JSON_TOKENER_ALLOW_TRAILING_CHARS | (strict ? JSON_TOKENER_STRICT : 0));
+		MC_COUNT("calls", 1);
+		errno = mc_errno_pre;
+		struct json_object *o4 = json_tokener_parse_ex(t4, buf, (int)TL + 1);
+		enum json_tokener_error e4 = json_tokener_get_error(t4);
+		sb_t da = {0}, db = {0};
+		vf_dump(obj, &da, 0);
+		vf_dump(o4, &db, 0);
+		if ((e4 == json_tokener_success) != (err == json_tokener_success) || (!o4) != (!obj) || strcmp(sb_str(&da), sb_str(&db)))
+			mc_violation(rr.status == RR_RANGE && e4 == json_tokener_success ? "strict-accepts-out-of-range-integer" : "allow-trailing-flag-changes-result",
+			             "with JSON_TOKENER_ALLOW_TRAILING_CHARS added: %s, value %s; without: %s, value %s", json_tokener_error_desc(e4), o4 ? sb_str(&db) : "NULL",
+			             json_tokener_error_desc(err), obj ? sb_str(&da) : "NULL");
+		sb_free(&da);
+		sb_free(&db);
+		if (o4)
+			json_object_put(o4);
+		json_tokener_free(t4);
+	}
 	if (rr.status == RR_RANGE)
 	{
 		/* integer beyond 64 bits in strict mode: must be rejected */
